@@ -2,6 +2,7 @@
 import Csvq.Model.Proto
 import Csvq.Model.Text
 import Csvq.Model.Cast
+import Csvq.Model.ParseFloat
 namespace Csvq.Drive
 open Csvq Csvq.Proto
 
@@ -80,6 +81,15 @@ def c06 (cmd : String) (args : List String) : String :=
   | "sint", [h] =>
     match parseHexX h with
     | some b => showOpt toString (strToIntStrict b) ++ " " ++ (strTernary b).toStr
+    | none => bad
+  | "sflt", [h] =>
+    match parseHexX h with
+    | some b =>
+      let t := PF.strTernaryB b
+      let p : Profile := { raw := .str b, int? := PF.strToIntStrictB b, flt? := PF.strToFloat b, dt? := none,
+                           bool? := (match t with | .U => none | .T => some true | .F => some false), strU? := none, tern := t }
+      showOpt toString p.int? ++ " " ++ showOpt showF p.flt? ++ " " ++ t.toStr ++ " " ++ showVal (castInteger p)
+        ++ " " ++ showVal (castBoolean p)
     | none => bad
   | "itext", [i] =>
     match i.toInt? with
